@@ -80,7 +80,8 @@ CLASSES = [
     ('ProximalConvexConjL1', PROXIMAL_PY, 'proximal_convex_conj_l1.ProximalConvexConjL1',
      dict(pars=['sigma'], cpars=['lam'], assume={'x is out': False, 'g is not None': False})),
     ('ProximalConvexConjL1_g', PROXIMAL_PY, 'proximal_convex_conj_l1.ProximalConvexConjL1',
-     dict(pars=['sigma'], cpars=['lam'], cvecs=['g'], assume={'x is out': False, 'g is not None': True})),
+     dict(pars=['sigma'], cpars=['lam'], cvecs=['g'],
+          assume={'x is out': False, 'g is not None': True, 'np.isscalar(self.sigma)': True})),
     ('ProximalL2Squared', PROXIMAL_PY, 'proximal_l2_squared.ProximalL2Squared',
      dict(pars=['sigma'], cpars=['lam'], assume={'np.isscalar(sig)': True, 'g is None': True})),
     ('ProximalL2Squared_g', PROXIMAL_PY, 'proximal_l2_squared.ProximalL2Squared',
